@@ -254,6 +254,95 @@ pub fn instance_of_left(rule: &Rule, rng: &mut Rng, slots: &[S], binder: &mut S)
     crate::sess::normalise_binders(&out, 400)
 }
 
+fn inst_rule_side_override(p: &Pat, sub: &BTreeMap<u32, Tm>, var: u32, other: &Tm, seen: &mut usize) -> Tm {
+    match p {
+        Pat::Subst(..) => inst_rule_side(p, sub),
+        Pat::Var(v) => {
+            if *v == var {
+                *seen += 1;
+                if *seen == 2 {
+                    return other.clone();
+                }
+            }
+            sub[v].clone()
+        }
+        Pat::Node { op, pay, slots, kids } => Tm {
+            op: *op,
+            pay: *pay,
+            slots: slots.clone(),
+            kids: kids.iter().map(|(b, k)| Kid { binders: b.clone(), t: inst_rule_side_override(k, sub, var, other, seen) }).collect(),
+        },
+    }
+}
+
+fn count_var(p: &Pat, var: u32) -> usize {
+    match p {
+        Pat::Var(v) => (*v == var) as usize,
+        Pat::Node { kids, .. } => kids.iter().map(|(_, k)| count_var(k, var)).sum(),
+        Pat::Subst(a, b, c) => count_var(a, var) + count_var(b, var) + count_var(c, var),
+    }
+}
+
+/// rules of the pool whose left side mentions a variable twice (outside the substitution form)
+pub fn repeated_var_rules(pool: &[Rule]) -> Vec<usize> {
+    let mut out = Vec::new();
+    for (i, r) in pool.iter().enumerate() {
+        let mut vs = Vec::new();
+        r.l.vars(&mut vs);
+        if r.cond_eq.is_none() && vs.iter().any(|v| count_var(&r.l, *v) >= 2) {
+            out.push(i);
+        }
+    }
+    out
+}
+
+/// A NEAR-instance of a left side with a repeated variable: the second occurrence of the variable is
+/// the first one's term with its free slots permuted (a non-trivial permutation). It is an instance
+/// only if that permutation is a symmetry of the term; the matcher has to compare the two
+/// occurrences as invocations, not as class ids.
+pub fn near_instance_of_left(rule: &Rule, rng: &mut Rng, slots: &[S], binder: &mut S) -> Option<Tm> {
+    let mut vs = Vec::new();
+    rule.l.vars(&mut vs);
+    let var = *vs.iter().find(|v| count_var(&rule.l, **v) >= 2)?;
+    let mut scopes = BTreeMap::new();
+    var_scopes(&rule.l, &mut Vec::new(), &mut scopes);
+    let mut sub = BTreeMap::new();
+    for (v, scope) in &scopes {
+        let mut sl: Vec<S> = slots.to_vec();
+        sl.extend(scope.iter().copied());
+        let d = if *v == var { 1 + rng.below(2) } else { rng.below(2) };
+        sub.insert(*v, random_la(rng, &sl, d, binder));
+    }
+    // the repeated variable's term should mention at least two slots
+    let mut t = sub[&var].clone();
+    if t.free().len() < 2 && slots.len() >= 2 {
+        let mk = |x: S| Tm::leaf("var", vec![x]);
+        let a = Tm::node("mul", vec![], vec![(vec![], mk(slots[0])), (vec![], mk(slots[1]))]);
+        t = if slots.len() >= 3 { Tm::node("add", vec![], vec![(vec![], a), (vec![], mk(slots[2]))]) } else { Tm::node("add", vec![], vec![(vec![], a), (vec![], mk(slots[0]))]) };
+        sub.insert(var, t.clone());
+    }
+    let free = t.free_vec();
+    if free.len() < 2 {
+        return None;
+    }
+    let mut img = free.clone();
+    for _ in 0..8 {
+        rng.shuffle(&mut img);
+        if img != free {
+            break;
+        }
+    }
+    if img == free {
+        return None;
+    }
+    let rho: BTreeMap<S, S> = free.iter().copied().zip(img.iter().copied()).collect();
+    let other = t.rename_keep_binders(&rho);
+    let inst = inst_rule_side_override(&rule.l, &sub, var, &other, &mut 0);
+    let mut fresh = *binder + 1000;
+    let out = inst.rename(&BTreeMap::new(), &mut fresh);
+    Some(crate::sess::normalise_binders(&out, 400))
+}
+
 /// Validates every rule of the pool on `n` random instantiations by evaluating both sides
 /// directly in M_field. A failure is a harness bug.
 pub fn validate_pool(p: u32, n: usize, seed: u64) -> Result<(), String> {
